@@ -43,7 +43,7 @@ func execOp(rc *RealCase, fsys backupfs.FS, op Op) []string {
 		f, err := fsys.Create(a[0])
 		return writeTo(f, err, a[1])
 	case "write":
-		f, err := fsys.OpenFile(a[0], atoi(a[1]), fs.FileMode(atou(a[2])))
+		f, err := fsys.OpenFile(a[0], atoi(a[1]), goMode(atou(a[2])))
 		return writeTo(f, err, a[3])
 	case "read":
 		f, err := fsys.Open(a[0])
